@@ -133,6 +133,13 @@ def bitmap_locals(f):
             oa = f.origins(comp["a"])
             ob = f.origins(comp["b"])
             if ("bin", "BitAnd") not in (oa | ob):
+                # an upper bound on the raw value (`bitmap < 1 << 9`) refuses the undefined high bits just as well
+                ra_ = rules.root_local(f, comp["a"])
+                if ra_ is not None and not ra_[1] and ra_[0] == l and (op_const(comp["b"]) is not None or (ob and all(a[0] in ("lit", "bin", "cast", "const") for a in ob))):
+                    rel, d = rules.cmp_rejects(f, comp)
+                    if rel in ("Ge", "Gt"):
+                        ent["rejecting"].append(comp["bb"])
+                        ent.setdefault("raw", []).append(True)
                 continue
             ra = set()
             vis = set()
